@@ -12,8 +12,8 @@ generated `__eq__`, uses slots and defines no `__setattr__` of its own;
 the regenerated table);
 (d) helpers: `set_with_clauses`, `set_table_name`, `append_column`, `append_partition_by_column` return a node of the
 same class whose fields are immutable when the receiver's and the argument are, and leave the receiver as it was;
-`change_type` does NOT: its result always holds a list (witness + theorem), the repaired variant does; and on such a
-result `append_column` changes the receiver (witness).
+and so does `change_type` since /repo 0d6c89d (it stored a list before: F-C11-1, and `append_column` then extended the receiver's
+own list: F-C11-2; both are kept as regression examples).
 
 Assumed, not modelled (trusted base, validated on every node by the `IMM` command): CPython rejects attribute assignment on
 a frozen dataclass, and hashes / compares dataclasses, tuples, strings and enums structurally.
@@ -213,28 +213,6 @@ theorem changeTypeWith_cls (mk : List Val → Val) (self r : Val) (hm : List (St
     · cases h
   · cases h
 
-/-- F-C11-1 … but **whatever the input, a result of `change_type` is not immutable**: `columns` holds a Python list,
-so `hash()` raises `TypeError` -/
-theorem changeType_never_immutable (self r : Val) (hm : List (String × String)) (rp : Bool)
-    (h : changeType self hm rp = .ok r) : Val.immutable r = false := by
-  unfold changeType changeTypeWith at h
-  split at h
-  · split at h
-    · split at h
-      · split at h
-        · cases h
-        · injection h with h; subst h
-          simp only [Val.immutable]
-          exact not_immutableF_dictSet _ _ _ (by simp [Val.immutable])
-      · split at h
-        · cases h
-        · injection h with h; subst h
-          simp only [Val.immutable]
-          exact not_immutableF_dictSet _ _ _ (by simp [Val.immutable])
-      · cases h
-    · cases h
-  · cases h
-
 theorem changeColumn_immutable (hm : List (String × String)) (rp : Bool) (old new : Val) (ho : Val.immutable old = true)
     (h : changeColumn hm rp old = .ok new) : Val.immutable new = true := by
   unfold changeColumn at h
@@ -280,10 +258,10 @@ theorem changeColumns_immutable (hm : List (String × String)) (rp : Bool) :
         injection h with h; subst h
         simp [Val.immutableL, changeColumn_immutable hm rp c c' hc.1 hc', changeColumns_immutable hm rp r r' hc.2 hr']
 
-/-- `change_type_partial`: with the one-word repair (`tuple(new_columns)`) the result of an immutable receiver is immutable -/
-theorem changeTypeRepaired_immutable (self r : Val) (hm : List (String × String)) (rp : Bool)
-    (hs : Val.immutable self = true) (h : changeTypeRepaired self hm rp = .ok r) : Val.immutable r = true := by
-  unfold changeTypeRepaired changeTypeWith at h
+/-- `change_type` (every map, both values of `remove_param`): the result of an immutable receiver is immutable -/
+theorem changeType_immutable (self r : Val) (hm : List (String × String)) (rp : Bool)
+    (hs : Val.immutable self = true) (h : changeType self hm rp = .ok r) : Val.immutable r = true := by
+  unfold changeType changeTypeWith at h
   split at h
   · rename_i cls fs
     simp only [Val.immutable] at hs
@@ -315,25 +293,29 @@ def sample : Val :=
 
 def zCol : Val := (DefCol.toVal { name := "z", type := ⟨"BIGINT", none⟩ })
 
-/-- F-C11-1 witness: `change_type(HASHMAP_MYSQL_TO_HIVE)` succeeds on the sample and its result holds a list in `columns` -/
-theorem witness_change_type_list :
+/-- `append_column` after `change_type`: the receiver (the result of `change_type`) is left as it was and the result is immutable —
+for every immutable table, every map and every column -/
+theorem append_after_change_type (self c col r c' : Val) (hm : List (String × String)) (rp : Bool)
+    (hs : Val.immutable self = true) (hcol : Val.immutable col = true)
+    (h1 : changeType self hm rp = .ok c) (h2 : appendColumn c col = .ok (r, c')) :
+    c' = c ∧ Val.immutable r = true ∧ clsOf r = clsOf self := by
+  have hc := changeType_immutable self c hm rp hs h1
+  obtain ⟨e1, e2, e3⟩ := appendColumn_spec c col r c' h2 hc hcol
+  exact ⟨e2, e3, by rw [e1, changeTypeWith_cls _ self c hm rp h1]⟩
+
+/-- regression example for F-C11-1 (fixed in /repo 0d6c89d): `change_type(HASHMAP_MYSQL_TO_HIVE)` on the parsed sample gives an
+immutable, well-shaped statement (no list at `columns`) -/
+theorem regress_change_type_hashable :
     (match changeType sample Gen.mysqlToHive true with
-     | .ok r => clsOf r == some "ASTCreateTableStatement" && !Val.immutable r && firstList r == some "columns"
+     | .ok r => clsOf r == some "ASTCreateTableStatement" && Val.immutable r && firstList r == none && Val.wellShaped Gen.fieldsOf r
      | .error _ => false) = true := by decide +kernel
 
-/-- the repaired variant gives an immutable result that prints the same fields -/
-theorem witness_change_type_repaired :
-    (match changeTypeRepaired sample Gen.mysqlToHive true with
-     | .ok r => Val.immutable r && Val.wellShaped Gen.fieldsOf r
-     | .error _ => false) = true := by decide +kernel
-
-/-- F-C11-2 witness: `append_column` on a result of `change_type` extends the receiver's own list — the receiver has three
-columns afterwards, it had two -/
-theorem witness_append_changes_receiver :
+/-- regression example for F-C11-2 (fixed in /repo 0d6c89d): `append_column` on a result of `change_type` leaves it with its two columns -/
+theorem regress_append_keeps_receiver :
     (match changeType sample Gen.mysqlToHive true with
      | .ok c =>
        (match appendColumn c zCol with
-        | .ok (r, c') => Drv.showVal c' != Drv.showVal c && Drv.showVal c' == Drv.showVal r
+        | .ok (r, c') => Drv.showVal c' == Drv.showVal c && Drv.showVal r != Drv.showVal c && Val.immutable r
         | .error _ => false)
      | .error _ => false) = true := by decide +kernel
 
